@@ -102,9 +102,31 @@ def check_block_writer(ctx, a, rule, codec, f):
 
 
 def compress_exprs(f, payload):
-    """source expressions of the payload written by a block writer"""
+    """source expressions of the payload written by a block writer: per path, the argument of the raw stream
+    write with the locals it was computed through propagated (roles B = block bytes, L = compression level)"""
+    import re as _re
+    from sa.pathsum import summaries
+    from sa.cfg import cfg_of
+
     if payload is None:
         return []
+    roles = dict(zip(f.pos_params[1:3], ("B", "L")))
+    found = set()
+    for s in summaries(cfg_of(f)):
+        for c in s.calls:
+            try:
+                call = ast.parse(c, mode="eval").body
+            except SyntaxError:
+                continue
+            if isinstance(call, ast.Call) and isinstance(call.func, ast.Attribute) and call.func.attr == "write" and norm(call.func.value).endswith("fo") and len(call.args) == 1:
+                arg = call.args[0]
+                for x in ast.walk(arg):
+                    if isinstance(x, ast.Name) and x.id in roles:
+                        x.id = roles[x.id]
+                for alt in ifexp_alternatives(arg):
+                    found.add(norm(alt))
+    if found:
+        return sorted(found)
     if payload.startswith("$"):
         return raw_var_sources(f, payload[1:])
     try:
